@@ -59,6 +59,13 @@ pub enum Fate {
     Dup(u64, u64),
 }
 
+/// One tick of the traced node: the instant and the datagram it was given (None = the read timed out).
+#[derive(Clone, Debug)]
+pub struct TickRec {
+    pub t_ns: u64,
+    pub input: Option<(Vec<u8>, SocketAddrV4)>,
+}
+
 #[derive(Clone, Debug)]
 pub struct WireRec {
     pub id: u64,
@@ -176,6 +183,9 @@ pub struct Sim {
     /// observe every delivery to this (inline) node: settle tick + snapshot before, snapshot after
     pub watch: Option<usize>,
     pub watch_log: Vec<WatchRec>,
+    /// record every tick of this node (instant + input) in `tick_log`
+    pub tick_trace: Option<usize>,
+    pub tick_log: Vec<TickRec>,
 }
 
 pub struct WatchRec {
@@ -209,6 +219,8 @@ impl Sim {
             steps: 0,
             watch: None,
             watch_log: vec![],
+            tick_trace: None,
+            tick_log: vec![],
         }
     }
 
@@ -476,6 +488,9 @@ impl Sim {
         }
         self.steps += 1;
         self.nodes[n].ticks += 1;
+        if self.tick_trace == Some(n) {
+            self.tick_log.push(TickRec { t_ns: self.now_ns(), input: input.clone() });
+        }
         let ep = self.nodes[n].ep;
         let grant = match input {
             Some((b, from)) => Grant::Datagram(b, from),
@@ -521,6 +536,11 @@ impl Sim {
             }
         }
         v::sim_take_outbox()
+    }
+
+    /// Put the datagrams emitted outside a tick (an API call handled inline) on the wire now.
+    pub fn flush(&mut self) {
+        self.collect_outbox();
     }
 
     /// Give node `n` one input-less tick right now (e.g. after issuing an API call).
